@@ -153,6 +153,12 @@ func VerifHarness_C16_UnimplementedExplicit() {
 	n := spec[verifrt.Choose("which", len(spec))]
 	verifrt.Assert(fn.MinArity <= n && n <= fn.MaxArity, "unimplemented-name-admits-its-specified-argument-count")
 	recv := verifReceiverFor(name)
+	switch verifrt.Choose("recv.shape", 3) { // not implemented is not implemented for every input, the empty one included
+	case 1:
+		recv = system.Collection{}
+	case 2:
+		recv = system.Collection{recv[0], recv[0]}
+	}
 	var args []expr.Expression
 	for i := 0; i < n; i++ {
 		args = append(args, verifArgFor(name, i))
